@@ -181,7 +181,8 @@ def c09(tier):
         run_s2c(rep, "MC_FogWalk", walk_cfg(keys="KWalkB", vals="VLongOnly", maxlive=2, muts=3, startall="TRUE",
                                             features="AllWalkFeatures"), R)
     need(rep, ["round-through-simulated-node", "stale-cache-entry-dropped", "round-via-frontier-cache",
-               "mutation-during-walk", "walk-completed-within-behaviour"])
+               "mutation-during-walk", "walk-completed-within-behaviour", "committed-batch-during-walk",
+               "aborted-batch-during-walk"])
     return rep.finish()
 
 
